@@ -83,7 +83,7 @@ exec_c20(const vcase *vc)
 					continue; // (-1000: the interpreter had nothing to call, e.g. no pipe to close)
 				const char *on = vc->ops[i + 2].name;
 				bool        data = !strcmp(on, "send") || !strcmp(on, "recv") || !strcmp(on, "ctxsend") || !strcmp(on, "ctxrecv") || !strcmp(on, "wait") || !strcmp(on, "dial") ||
-				    !strcmp(on, "pipeclose");
+				    !strcmp(on, "pipeclose") || !strcmp(on, "http"); // (http: the in-process server may be the one that ran out of memory and dropped the connection)
 				if (M.rcs[i] != NNG_ENOMEM && !(data && loss_code(M.rcs[i])))
 					vr_fail("C20:unclean-error", "allocation %ld of %ld failed: op %d (%s) returned %d (%s) instead of %d; expected NNG_ENOMEM%s", k, total, (int) i + 2, on, M.rcs[i],
 					    nng_strerror((nng_err) M.rcs[i]), base[i], data ? " or the loss of one message / connection" : "");
